@@ -56,6 +56,14 @@ CHECKS = {
          "deterministic simulation: real message hub, real v1/v2 WebSocket monitor handlers (gorilla server and client over simulated connections, upgrade shim in place of net/http) and harness listeners under the seeded scheduler; clients stop reading, close or reset at seeded points with events queued; per-listener sequence oracle against a history model plus a bounded-progress check of the hub",
          "Seeded search over scripts of dispatches, deletes, bursts, joins, idles and syncs x history lengths x listener kinds and fault timings x schedules (broadcast order over the listener set, select order in the writer, every channel operation is a scheduling point).",
          "net/http's accept/serve loop is replaced by a 30-line shim with the same panic recovery; the attach position of a WebSocket listener is only known as a bracket, any position in it is accepted. History length 0 (documented to disable the monitor) is not exercised."),
+ "C13": ("exploration", "DESIGN.md §4 C13",
+         "deterministic simulation: real POP3 server on the simulated network over both real stores; reply-driven client from a command grammar, a concurrent task changing the mailbox through the store during the session, session ended by QUIT / FIN / RST / cut mid-command / stall past the timeout; snapshot-and-marks reference model, store compared after the session",
+         "Seeded search over command sequences x mailbox contents x concurrent store changes x session endings x connection behaviour.",
+         "The snapshot instant is bracketed (reference listing taken just before the accepted PASS/APOP; the other task starts after its reply). Only framing of error replies is required. TLS never enabled."),
+ "C17": ("exploration", "DESIGN.md §4 C17",
+         "deterministic simulation: Lua scripts generated from the handler grammar run in the real Lua host behind the real SMTP server on the simulated network, 1-4 concurrent sessions, optional Go listeners before/after 'lua'; hook-semantics reference model + policy + naming models predict reply classes, deny code/text, and the stored mailboxes/sender/recipients/subject",
+         "Seeded search over scripts (any subset of the five handlers; allow/deny/defer/nil/garbage/error/rewrite answers; conditions on the session) x dialogues x policy configurations x listener order x schedules.",
+         "gopher-lua is not instrumented: Lua code runs without scheduling points; sessions interleave at pool/broker locks and connection operations. The data-race clause is not decided (see DESIGN §2.7)."),
 }
 
 NOT_YET = "check under construction in this session; not claimed until it runs clean on the unchanged tree"
